@@ -150,6 +150,28 @@ sym_file_len(FILE *f)
     return end;
 }
 
+void
+sym_file_poke(FILE *f, int64_t pos, int32_t byte)
+{
+    long cur = ftell(f);
+    fseek(f, (long) pos, SEEK_SET);
+    fputc(byte & 0xff, f);
+    fflush(f);
+    fseek(f, cur, SEEK_SET);
+}
+
+int32_t
+sym_file_peek(FILE *f, int64_t pos)
+{
+    long cur = ftell(f);
+    int c;
+    fflush(f);
+    fseek(f, (long) pos, SEEK_SET);
+    c = fgetc(f);
+    fseek(f, cur, SEEK_SET);
+    return c < 0 ? 0 : c;
+}
+
 #ifdef SYM_ENTRY
 int SYM_ENTRY(void);
 int
